@@ -30,7 +30,70 @@ fn run_type<T: Acc>(tier: Tier, cheap: bool, s: &mut Sink, totals: &mut (u64, u6
     }
 }
 
+/// long histories: the same 20 000 (f32: also 200 000) observations delivered by from_iter,
+/// one by one, in chunks, as a left fold / right fold / balanced reduction of 100-element
+/// registers; every resulting register must satisfy the invariant, and the one-shot `ci`
+/// entry points must agree with the batch register
+fn long_history<T: Acc>(n: usize, s: &mut Sink) {
+    let a = T::alphabet();
+    let model: Vec<vcheck::models::Obs> = (0..n).map(|i| a[(i * 7 + i / 3) % a.len()]).collect();
+    let case = |shape: &str| json!({"check":"long","type":T::NAME,"n":n,"shape":shape});
+    let parts: Vec<T> = model.chunks(100).map(|c| T::from_iter(c)).collect();
+    let mut shapes: Vec<(&str, T)> = vec![];
+    shapes.push(("from_iter", T::from_iter(&model)));
+    let mut r = T::new();
+    for o in &model {
+        r.append(*o);
+    }
+    shapes.push(("append one by one", r));
+    let mut r = T::new();
+    for c in model.chunks(999) {
+        r.extend(c);
+    }
+    shapes.push(("extend in chunks of 999", r));
+    let mut r = T::new();
+    for p in &parts {
+        r.add_assign(p);
+    }
+    shapes.push(("left fold of 100-element registers (+=)", r));
+    let mut r = T::new();
+    for p in parts.iter().rev() {
+        r = p.add(&r);
+    }
+    shapes.push(("right fold of 100-element registers (+)", r));
+    let mut level: Vec<T> = parts.clone();
+    while level.len() > 1 {
+        level = level.chunks(2).map(|c| if c.len() == 2 { c[0].add(&c[1]) } else { c[0].clone() }).collect();
+    }
+    shapes.push(("balanced reduction", level.pop().unwrap()));
+    s.calls += 3 * n as u64;
+    for (name, reg) in &shapes {
+        s.evals += 1;
+        reg.check(&model, &|| case(name), s);
+        s.outcome(&(T::NAME, "long", *name));
+    }
+    T::check_oneshot(&model, &|| case("one-shot ci"), s);
+}
+
 fn replay_case(case: &Value, s: &mut Sink) {
+    if case["check"] == "long" {
+        let n = case["n"].as_u64().unwrap() as usize;
+        match case["type"].as_str().unwrap_or("") {
+            "Arithmetic<f64>" => long_history::<Arithmetic<f64>>(n, s),
+            "Arithmetic<f32>" => long_history::<Arithmetic<f32>>(n, s),
+            "Geometric<f64>" => long_history::<Geometric<f64>>(n, s),
+            "Harmonic<f64>" => long_history::<Harmonic<f64>>(n, s),
+            "Geometric<f32>" => long_history::<Geometric<f32>>(n, s),
+            "Harmonic<f32>" => long_history::<Harmonic<f32>>(n, s),
+            "Paired<f64>" => long_history::<Paired<f64>>(n, s),
+            "Paired<f32>" => long_history::<Paired<f32>>(n, s),
+            "Unpaired<f64>" => long_history::<Unpaired<f64>>(n, s),
+            "Unpaired<f32>" => long_history::<Unpaired<f32>>(n, s),
+            "proportion::Stats" => long_history::<proportion::Stats>(n, s),
+            _ => long_history::<quantile::Stats>(n, s),
+        }
+        return;
+    }
     let hist: Vec<Act> = serde_json::from_value(case["history"].clone()).unwrap();
     let mr = case["max_regs"].as_u64().unwrap_or(3) as usize;
     match case["type"].as_str().unwrap_or("") {
@@ -74,6 +137,34 @@ fn main() {
     }
     run_type::<proportion::Stats>(tier, true, &mut s, &mut totals, &mut notes);
     run_type::<quantile::Stats>(tier, true, &mut s, &mut totals, &mut notes);
+    // long histories (sequential per type; the types run in parallel)
+    {
+        use rayon::prelude::*;
+        let jobs: Vec<Box<dyn Fn(&mut Sink) + Send + Sync>> = vec![
+            Box::new(|s| long_history::<Arithmetic<f64>>(20_000, s)),
+            Box::new(|s| long_history::<Arithmetic<f32>>(20_000, s)),
+            Box::new(|s| long_history::<Arithmetic<f32>>(200_000, s)),
+            Box::new(|s| long_history::<Geometric<f64>>(20_000, s)),
+            Box::new(|s| long_history::<Harmonic<f64>>(20_000, s)),
+            Box::new(|s| long_history::<Geometric<f32>>(100_000, s)),
+            Box::new(|s| long_history::<Harmonic<f32>>(100_000, s)),
+            Box::new(|s| long_history::<Paired<f64>>(20_000, s)),
+            Box::new(|s| long_history::<Paired<f32>>(100_000, s)),
+            Box::new(|s| long_history::<Unpaired<f64>>(20_000, s)),
+            Box::new(|s| long_history::<Unpaired<f32>>(100_000, s)),
+            Box::new(|s| long_history::<proportion::Stats>(100_000, s)),
+            Box::new(|s| long_history::<quantile::Stats>(100_000, s)),
+        ];
+        let r = jobs
+            .par_iter()
+            .map(|j| {
+                let mut s = Sink::new();
+                j(&mut s);
+                s
+            })
+            .reduce(Sink::new, Sink::merge);
+        s = s.merge(r);
+    }
     rep.states = Some(totals.0);
     rep.exhaustive = s.counter("capped-searches") == 0;
     rep.note("searches", json!(notes));
@@ -86,10 +177,11 @@ fn main() {
     s.sample(json!({"type":"Arithmetic<f64>","history":["FromIter([0.1, 1048576.0])","New","Append(1, -2.5)","AddAssign(1, 0)"],"invariant":"register 1: count 3; mean/ci equal the exact statistics and the batch from_iter of {-2.5, 0.1, 1048576} within tolerance; queries pure"}));
     s.sample(json!({"type":"Unpaired<f64>","history":["FromIter([A(0.1), B(1048576.0)])","Clone(0)","Add(0, 1)"],"invariant":"side a holds exactly the A observations, side b the B observations"}));
     s.sample(json!({"type":"proportion::Stats","history":["Extend(0,[true,false])","AddAssign(0,0)"],"invariant":"== Stats::new(4, 2)"}));
-    rep.rule = format!("BFS over pools of <=3 real registers, <=6 observations per register, depth {} ({} for proportion/quantile Stats), for Arithmetic<f64,f32>, Geometric, Harmonic, Paired, Unpaired{}, proportion::Stats, quantile::Stats; actions New, Append(r,v), Extend(r,chunk), FromIter(chunk), Clone(r), Add(i,j), AddAssign(i,j) incl. i=j, chunks = empty, singletons, all pairs over 3 values, one triple; every new state: each register against its model (count, mean, CIs vs exact statistics and vs one batch from_iter of the sorted model), queries issued twice and Debug rendering unchanged; distinct by (type, model size, observers, non-zero compensation)", tier.pick(4, 5), tier.pick(5, 8), tier.pick("", " (also f32)"));
+    rep.rule = format!("BFS over pools of <=3 real registers, <=6 observations per register, depth {} ({} for proportion/quantile Stats), for Arithmetic<f64,f32>, Geometric, Harmonic, Paired, Unpaired{}, proportion::Stats, quantile::Stats; actions New, Append(r,v), Extend(r,chunk), FromIter(chunk), Clone(r), Add(i,j), AddAssign(i,j) incl. i=j, chunks = empty, singletons, all pairs over 3 values, one triple; every new state: each register against its model (count, mean, CIs vs exact statistics and vs one batch from_iter of the sorted model), queries issued twice and Debug rendering unchanged; plus long histories (2e4..2e5 observations per type delivered by from_iter / one by one / chunked extend / left fold / right fold / balanced reduction of 100-element registers, and the one-shot ci entry points); distinct by (type, model size, observers, non-zero compensation)", tier.pick(4, 5), tier.pick(5, 8), tier.pick("", " (also f32)"));
     rep.assume("interleavings inside a stats-ci call are not explored: the crate has no shared mutable state (forbid(unsafe_code), no interior mutability, one immutable lazy_static); schedules are explored at the caller level by the loom harness");
     rep.assume("the Debug rendering (all private fields, round-trip float formatting) is the injective state key");
-    rep.require(s.counter("states-with-nonzero-compensation") > 0, "no state with a non-zero compensation term was reached");
+    // (only meaningful while the Debug rendering exposes the compensation term by that name)
+    rep.require(s.counter("states-exposing-a-compensation-term") == 0 || s.counter("states-with-nonzero-compensation") > 0, "no state with a non-zero compensation term was reached");
     rep.require(s.distinct() >= 30, "fewer than 30 distinct classes: vacuous");
     std::process::exit(rep.finish(s));
 }
